@@ -43,6 +43,9 @@ def rand_povm(rng: random.Random, d: int) -> List[np.ndarray]:
     return [m0, m1]
 
 
+PROFILE = os.environ.get("VERIF_DRIVER_PROFILE", "default")
+
+
 class Program:
     def __init__(self, rng: random.Random):
         import jax.numpy as jnp
@@ -169,6 +172,8 @@ class Program:
         r = self.rng
         kinds = ["op1"] * 5 + ["opn"] * 4 + ["kraus"] * 2 + ["povm"] * 2 + ["measure"] * 2 + ["struct"] * 4 + \
                 ["composite"] * 3 + ["resize"] * 2 + ["invalid"] * 2 + ["trace"] * 2 + ["config"]
+        if PROFILE == "measure":
+            kinds = ["op1"] * 5 + ["opn"] * 3 + ["povm"] * 4 + ["measure"] * 6 + ["struct"] * 2 + ["composite"] * 2 + ["kraus"]
         what = r.choice(kinds)
         tracer.set_intent("valid")
         live = self.live()
